@@ -82,15 +82,20 @@ d = sh(["git", "diff", "--", ".", ":(exclude)*zz_seed_*"], wt).stdout
 os.makedirs(dest, exist_ok=True)
 open(f"{dest}/patch.diff", "w").write(d)
 shutil.copy(demo, f"{dest}/demo_test.go")
-assert sh(["git", "status", "--porcelain"], "/repo").stdout.strip() == "", "/repo is not clean"
+# a scratch clone of /repo stands in for /repo (VERIF_REPO): identical to applying the patch to /repo
+# and undoing it, but safe while other checks are running against /repo itself
+scratch_repo = "/var/tmp/seedrepo-" + name
+shutil.rmtree(scratch_repo, ignore_errors=True)
+sh(["git", "clone", "-q", "/repo", scratch_repo], "/var/tmp")
 checks = {}
-ap = sh(["git", "apply", f"{dest}/patch.diff"], "/repo")
+ap = sh(["git", "apply", f"{dest}/patch.diff"], scratch_repo)
 try:
     if ap.returncode != 0:
         checks["apply"] = ap.stdout
     else:
         for p in [pid] + meta.get("also_check", []) + sys.argv[3:]:
-            r = subprocess.run(["./check", p, "quick"], cwd="/verif", stdout=subprocess.PIPE, stderr=subprocess.STDOUT, text=True)
+            r = subprocess.run(["./check", p, "quick"], cwd="/verif", env=dict(os.environ, VERIF_REPO=scratch_repo),
+                               stdout=subprocess.PIPE, stderr=subprocess.STDOUT, text=True)
             viol = [l for l in r.stdout.split("\n") if l.startswith("VIOLATION")]
             replay = None
             mm = re.search(r"replay=(\S+)", viol[0]) if viol else None
@@ -100,14 +105,14 @@ try:
             checks[p] = {"exit": r.returncode, "violation_line": viol[0] if viol else None,
                          "summary": [l for l in r.stdout.split("\n") if l.startswith("[check]")][:4], "replay": replay}
 finally:
-    sh(["git", "checkout", "--", "."], "/repo")
+    shutil.rmtree(scratch_repo, ignore_errors=True)
 res["checks"] = checks
 res["detected"] = any(isinstance(v, dict) and v.get("exit") == 1 and v.get("violation_line") for v in checks.values())
 res["detected_with_failing_input"] = any(isinstance(v, dict) and v.get("violation_line") and "no-failing-input-found" not in v["violation_line"] for v in checks.values())
 meta_out = dict(meta)
 meta_out["confirmation"] = {k: res[k] for k in ("builds", "suite_failures_with_change", "demo_fails_with_change", "demo_passes_without_change", "confirmed")}
 meta_out["demo_test"] = {"path_in_repo": demo_rel, "run": f"go test -vet=off -count=1 -run '^{test}$' {pkg}"}
-meta_out["what_i_ran"] = "tools/seedeval.py: suite with change (demo aside, persistent non-flaky failures only), demo with and without change in the scratch worktree; then patch applied to /repo, ./check <id> quick, patch undone"
+meta_out["what_i_ran"] = "tools/seedeval.py: suite with change (demo aside, persistent non-flaky failures only), demo with and without change in the scratch worktree; then patch applied to a fresh clone of /repo used as VERIF_REPO, ./check <id> quick, clone removed"
 meta_out["check_results"] = checks
 meta_out["detected"] = res["detected"]
 meta_out["detected_with_failing_input"] = res["detected_with_failing_input"]
